@@ -904,7 +904,36 @@ class SymExec:
             if isinstance(v, Poly) and (v.atoms() & set(sub)):
                 self.st[k] = v.subst(sub)
 
+    def _bool_match_as_if(self, e):
+        """`match b { true => A, false => B }` (or with a wildcard for one side) is an if-expression on b"""
+        if (e["scrut"].get("ty") or "") != "bool" or len(e.get("arms", [])) != 2:
+            return None
+        def lit_of(p):
+            if p.get("k") == "PLit":
+                x = p.get("e") or p
+                v = x.get("v") if isinstance(x, dict) else None
+                if str(v).lower() in ("true", "false"):
+                    return str(v).lower() == "true"
+            if p.get("k") == "PWild":
+                return "any"
+            return None
+        l0, l1 = lit_of(e["arms"][0]["pat"]), lit_of(e["arms"][1]["pat"])
+        if any(a.get("guard") is not None for a in e["arms"]) or l0 is None or l1 is None or l0 == "any":
+            return None
+        if l1 == "any":
+            l1 = not l0
+        if l0 == l1:
+            return None
+        t_arm, f_arm = (e["arms"][0], e["arms"][1]) if l0 else (e["arms"][1], e["arms"][0])
+        key = "_as_if"
+        if key not in e:
+            e[key] = {"k": "If", "cond": e["scrut"], "then": t_arm["body"], "else": f_arm["body"], "ty": e.get("ty"), "sp": e.get("sp"), "mx": e.get("mx")}
+        return e[key]
+
     def e_Match(self, e):
+        as_if = self._bool_match_as_if(e)
+        if as_if is not None:
+            return self.e_If(as_if)
         scrut = self.eval(e["scrut"])
         if self.st is None:
             return Poly.atom("never")
@@ -1732,7 +1761,8 @@ class SymExec:
             v = self.eval(e["args"][0])
             if isinstance(v, Buf):
                 v = self._p(v)
-            self.log("push", lv=lv, value=v, node=e, recv=recv, pc=list(self.pc))
+            self.log("push", lv=lv, value=v, node=e, recv=recv, pc=list(self.pc),
+                     facts=list((self.st or {}).get(FACTS) or ()))
             if lv[0] == "key":
                 cur = self.st.get(lv[1])
                 if isinstance(cur, Coll):
